@@ -204,6 +204,9 @@ func init() {
 	}
 	paths[3].path = "net/http"
 	paths[6].path = "sync"
+	// the same package seen once with and once without a vendor prefix (two distinct import paths), and paths whose last element is not the name
+	paths = append(paths, pathSpec{"model", "example.com/m/vendor/" + paths[0].path}, pathSpec{"sync", "vendor/sync"},
+		pathSpec{"model", paths[1].path + "/v2"}, pathSpec{"yaml", "gopkg.in/yaml.v3"})
 }
 
 type history struct {
